@@ -103,18 +103,26 @@ Definition run_fs (st : option Loaded) (rt : option Routing) (F : fs) (op : stri
                 match fs_get F dp with
                 | Some (File (CJson prev)) =>
                     let effs := write_effects dp (dupdate prev data) 1 in
+                    (* mode "syscall": the process dies right before its n-th file-system changing call (0: opening the temporary
+                       file for writing, 1: the replace; from 2 on the write completes) *)
                     let k := if String.eqb mode "before" then 0
                              else if String.eqb mode "partial" then (if Nat.eqb (str_to_nat n) 0 then 1 else 2)
                              else if String.eqb mode "before_replace" then 3
+                             else if String.eqb mode "syscall" then (match str_to_nat n with 0 => 0 | 1 => 3 | _ => 4 end)
                              else 4 in
-                    (N [L (if String.eqb mode "none" then "completed" else "crashed")], crash_at F effs (if String.eqb mode "none" then 4 else k))
+                    let completed := String.eqb mode "none" || (String.eqb mode "syscall" && Nat.leb 2 (str_to_nat n)) in
+                    (N [L (if completed then "completed" else "crashed")], crash_at F effs (if completed then 4 else k))
                 | None =>
                     let effs := write_effects dp data 1 in
+                    (* mode "syscall": the process dies right before its n-th file-system changing call (0: opening the temporary
+                       file for writing, 1: the replace; from 2 on the write completes) *)
                     let k := if String.eqb mode "before" then 0
                              else if String.eqb mode "partial" then (if Nat.eqb (str_to_nat n) 0 then 1 else 2)
                              else if String.eqb mode "before_replace" then 3
+                             else if String.eqb mode "syscall" then (match str_to_nat n with 0 => 0 | 1 => 3 | _ => 4 end)
                              else 4 in
-                    (N [L (if String.eqb mode "none" then "completed" else "crashed")], crash_at F effs (if String.eqb mode "none" then 4 else k))
+                    let completed := String.eqb mode "none" || (String.eqb mode "syscall" && Nat.leb 2 (str_to_nat n)) in
+                    (N [L (if completed then "completed" else "crashed")], crash_at F effs (if completed then 4 else k))
                 | Some Dir | Some Unreadable => pure (N [L "raise"; L "OSError"])
                 | Some (File _) => pure (N [L "raise"; L "JSONDecodeError"])
                 end
